@@ -308,7 +308,7 @@ func cmdProp(args []string) {
 		}
 	}
 	for _, f := range findings {
-		if f.Property == cfg.ID && !f.Fixed && f.Obligation != "" && !seenPrefix(seen, f.Obligation) {
+		if f.Property == cfg.ID && !f.Fixed && f.Obligation != "" && !seen[stableName(f.Obligation)] {
 			fmt.Printf("note: known finding for %s names an obligation that is not generated: %s\n", cfg.ID, f.Obligation)
 		}
 	}
@@ -369,7 +369,9 @@ func matchFinding(fs []Finding, prop, ob string) *Finding {
 		if f.Fixed || f.Property != prop || f.Obligation == "" {
 			continue
 		}
-		if f.Obligation == ob {
+		if f.Obligation == ob || stableName(f.Obligation) == stableName(ob) {
+			// ordinals of repeated instances (@N) shift with unrelated edits: a finding covers
+			// every instance of the same function / kind / field
 			return f
 		}
 	}
